@@ -544,7 +544,14 @@ func execRender(args []string, lines [][]string) []string {
 			}
 		}
 		rec := httptest.NewRecorder()
-		req := httptest.NewRequest(method, "/", nil)
+		// the URL's query is no input of rendering either: every op carries one chosen by its own text
+		qh := 0
+		for _, f := range l {
+			for i := 0; i < len(f); i++ {
+				qh = (qh*131 + int(f[i])) & 0xffffff
+			}
+		}
+		req := httptest.NewRequest(method, "/"+[]string{"", "", "?=", "?=1", "?pretty=true", "?a=b&=true", "?indent=%20%20", "?pretty", "?format=xml&callback=f"}[qh%9], nil)
 		panicked := false
 		func() {
 			defer func() {
